@@ -15,7 +15,10 @@
        (soroban-env-host 25.0.1 src/auth.rs: account trackers, root / sub-invocation matching,
        "one match per frame", "no new root while a tracker of the address is active",
        direct-invoker-contract rule);
-     - the harness target contract (a logging / failing / auth-requiring callee).
+     - the harness target contract (a logging / failing / auth-requiring callee, and a malicious
+       one that, from inside the forwarded call, calls back into a fee token - transfer_from through
+       somebody's allowance, approve for somebody - or into forward(); those inner calls are leaf
+       frames at depth 3 of the call tree, [require_auth2]).
 
    Error codes are never modelled: a call is [Ok] or [Fail]; a failing call leaves the state
    unchanged (host rollback). *)
@@ -73,6 +76,12 @@ Definition F_APPROVE : N := 11.
 Definition F_ENABLE : N := 12.
 Definition F_DISABLE : N := 13.
 Definition F_SWEEP : N := 14.
+Definition F_TRANSFER_FROM : N := 15.
+(* re-entering target functions (a malicious target calling back into the fee token / the forwarder) *)
+Definition F_PULL : N := 5.         (* target: pull(token, spender, from, to, amount, swallow)            *)
+Definition F_APPROVE_FOR : N := 6.  (* target: approve_for(token, owner, spender, amount, exp, swallow)   *)
+Definition F_REENTER : N := 7.      (* target: reenter(forwarder, swallow)                               *)
+Definition is_script (fn : N) : bool := N.eqb fn F_PULL || N.eqb fn F_APPROVE_FOR || N.eqb fn F_REENTER.
 
 Definition memb (a : addr) (l : list addr) : bool := existsb (N.eqb a) l.
 
@@ -158,6 +167,39 @@ Definition pop_frame (ts : list tracker) : list tracker :=
   map (fun t => {| tk_entry := tk_entry t; tk_root_ex := tk_root_ex t; tk_sub_ex := tk_sub_ex t;
                    tk_m0 := tk_m0 t; tk_m1 := false;
                    tk_done := tk_done t || (tk_root_ex t && negb (tk_m0 t)) |}) ts.
+
+(* A require_auth in a LEAF frame at depth 2 (a token function called by the target, which was
+   called by the forwarder), followed by the pop of that frame.  [tk_m0]/[tk_m1] are the tracker's
+   matches for the forwarder frame and the target frame; the leaf frame itself is fresh. *)
+Definition has_active2 (who : addr) (ts : list tracker) : bool :=
+  existsb (fun t => N.eqb (tk_who t) who && tk_active t) ts.
+Definition try_tracker2 (allow_root : bool) (f : func) (t : tracker) : option tracker :=
+  if tk_m0 t && tk_m1 t then None        (* current node = a sub-invocation: it has no children (trees of depth 2) *)
+  else if tk_m0 t || tk_m1 t then        (* current node = the root: extend below it *)
+    match match_sub f (en_subs (tk_entry t)) (tk_sub_ex t) with
+    | Some ex' => Some {| tk_entry := tk_entry t; tk_root_ex := tk_root_ex t; tk_sub_ex := ex';
+                          tk_m0 := tk_m0 t; tk_m1 := tk_m1 t; tk_done := tk_done t |}
+    | None => None
+    end
+  else if negb (tk_root_ex t) && allow_root && func_eqb (en_root (tk_entry t)) f then
+    (* the root is matched by the leaf frame and fully processed when that frame is popped *)
+    Some {| tk_entry := tk_entry t; tk_root_ex := true; tk_sub_ex := tk_sub_ex t;
+            tk_m0 := tk_m0 t; tk_m1 := tk_m1 t; tk_done := true |}
+  else None.
+Fixpoint req_loop2 (allow_root : bool) (who : addr) (f : func) (ts : list tracker) : option (list tracker) :=
+  match ts with
+  | [] => None
+  | t :: r =>
+      if N.eqb (tk_who t) who then
+        match try_tracker2 allow_root f t with
+        | Some t' => Some (t' :: r)
+        | None => match req_loop2 allow_root who f r with Some r' => Some (t :: r') | None => None end
+        end
+      else match req_loop2 allow_root who f r with Some r' => Some (t :: r') | None => None end
+  end.
+Definition require_auth2 (invoker who : addr) (f : func) (ts : list tracker) : res (list tracker) :=
+  if N.eqb invoker who then Ok ts
+  else of_option (req_loop2 (negb (has_active2 who ts)) who f ts).
 
 (* ------------------------------------------------------------------------- *)
 (* Fee token: balance / allowance core of fungible Base                      *)
@@ -365,26 +407,71 @@ Definition approve_frame (hc : hostcfg) (now : Z) (F tok : addr) (t : tokst) (ow
   do t' <- set_allowance hc now t owner spender amt exp;
   Ok (t', pop_frame ts2).
 
-(* the harness target contract, called by [F] *)
-Definition target_call (c : cfg) (l : list (addr * list logent)) (F target : addr) (fn : N)
-  (args : list atom) (ts : list tracker) : res (list (addr * list logent) * Z * list tracker) :=
-  do _ <- guard (memb target (c_targets c));
-  let log := get_log l target in
-  let ts1 := push_frame ts in
+Definition get_tokm (tks : list (addr * tokst)) (tok : addr) : tokst :=
+  match alist_get tok tks with Some t => t | None => tok0 end.
+
+(* calls a re-entering target makes into a fee token (leaf frames at depth 2, invoker = the target) *)
+Definition inner_pull (c : cfg) (nw : Z) (tks : list (addr * tokst)) (target tk spender from to : addr)
+  (amt : Z) (ts : list tracker) : res (list (addr * tokst)) :=
+  (* tk.transfer_from(spender, from, to, amt) *)
+  do _ <- guard (memb tk (c_tokens c));
+  do _ <- require_auth2 target spender (mkf tk F_TRANSFER_FROM [VA spender; VA from; VA to; VI amt]) ts;
+  do t1 <- spend_allowance (c_host c) nw (get_tokm tks tk) from spender amt;
+  do t2 <- update_transfer t1 from to amt;
+  Ok (alist_set tk t2 tks).
+Definition inner_approve (c : cfg) (nw : Z) (tks : list (addr * tokst)) (target tk owner spender : addr)
+  (amt exp : Z) (ts : list tracker) : res (list (addr * tokst)) :=
+  (* tk.approve(owner, spender, amt, exp) *)
+  do _ <- guard (memb tk (c_tokens c));
+  do _ <- require_auth2 target owner (mkf tk F_APPROVE (approve_args owner spender amt exp)) ts;
+  do t1 <- set_allowance (c_host c) nw (get_tokm tks tk) owner spender amt exp;
+  Ok (alist_set tk t1 tks).
+
+(* a scripted step: the inner call's result is logged (1 = it went through, 0 = it failed and was
+   rolled back); a failure is swallowed (try_invoke) or propagated according to [sw] *)
+Definition scripted (fn : N) (args : list atom) (sw : Z) (tks : list (addr * tokst))
+  (r : res (list (addr * tokst))) : res (logent * list (addr * tokst)) :=
+  match r with
+  | Ok tks' => Ok ((fn, args ++ [AI 1]), tks')
+  | Fail => if sw =? 0 then Fail else Ok ((fn, args ++ [AI 0]), tks)
+  end.
+
+(* the body of the harness target's functions: what it logs and the token states it leaves *)
+Definition target_body (c : cfg) (nw : Z) (tks : list (addr * tokst)) (F target : addr) (fn : N)
+  (args : list atom) (ts1 : list tracker) : res (logent * list (addr * tokst)) :=
   match args with
   | [AI v] =>
-      if N.eqb fn F_HIT then
-        let log' := log ++ [(fn, args)] in
-        Ok (alist_set target log' l, Z.of_nat (length log'), pop_frame ts1)
+      if N.eqb fn F_HIT then Ok ((fn, args), tks)
       else Fail                                       (* boom panics; anything else: no such function *)
   | [AA who; AI v] =>
       if N.eqb fn F_AUTH then
-        do ts2 <- require_auth true (Some F) who (mkf target F_AUTH [VA who; VI v]) ts1;
-        let log' := log ++ [(fn, args)] in
-        Ok (alist_set target log' l, Z.of_nat (length log'), pop_frame ts2)
+        do _ <- require_auth true (Some F) who (mkf target F_AUTH [VA who; VI v]) ts1;
+        Ok ((fn, args), tks)
+      else if N.eqb fn F_REENTER then
+        (* who.forward(.., fee = 0, ..): contract re-entry is refused by the host when [who] is the
+           calling forwarder; any other forwarder refuses the zero fee (or the missing role / auth) *)
+        scripted fn args v tks Fail
+      else Fail
+  | [AA tk; AA spender; AA from; AA to; AI amt; AI sw] =>
+      if N.eqb fn F_PULL
+      then scripted fn args sw tks (inner_pull c nw tks target tk spender from to amt ts1)
+      else Fail
+  | [AA tk; AA owner; AA spender; AI amt; AI exp; AI sw] =>
+      if N.eqb fn F_APPROVE_FOR
+      then scripted fn args sw tks (inner_approve c nw tks target tk owner spender amt exp ts1)
       else Fail
   | _ => Fail
   end.
+
+(* the harness target contract, called by [F] *)
+Definition target_call (c : cfg) (nw : Z) (tks : list (addr * tokst)) (l : list (addr * list logent))
+  (F target : addr) (fn : N) (args : list atom) (ts : list tracker)
+  : res (list (addr * tokst) * list (addr * list logent) * Z) :=
+  do _ <- guard (memb target (c_targets c));
+  do _ <- guard (negb (N.eqb target F));              (* contract re-entry is not allowed *)
+  do '(ent, tks') <- target_body c nw tks F target fn args (push_frame ts);
+  let log' := get_log l target ++ [ent] in
+  Ok (tks', alist_set target log' l, Z.of_nat (length log')).
 
 (* collect_fee *)
 Definition collect_fee (c : cfg) (nw : Z) (a : alst) (F : addr) (t : tokst) (tok : addr)
@@ -423,8 +510,8 @@ Definition forward (c : cfg) (st : state) (k : kind) (tok : addr) (fee max exp :
   let recipient := match k with Permissioned => F | Permissionless => relayer end in
   do '(t', ts3) <- collect_fee c (now st) (al_of st k) F (get_tok st tok) tok fee max exp user recipient
                      (approval_of k) ts2;
-  do '(l', ret, _) <- target_call c (logs st) F target fn args ts3;
-  Ok ({| now := now st; toks := alist_set tok t' (toks st); al := al st; logs := l' |}, ret).
+  do '(tks', l', ret) <- target_call c (now st) (alist_set tok t' (toks st)) (logs st) F target fn args ts3;
+  Ok ({| now := now st; toks := tks'; al := al st; logs := l' |}, ret).
 
 Definition step_ok (c : cfg) (st : state) (cl : call) : res (state * Z) :=
   match cl with
